@@ -19,3 +19,4 @@ import TFV.Properties.Src.Bsearch
 #print axioms TFV.SrcTie.C11_src_binary_search_interval
 #print axioms TFV.SrcTie.C11_src_check_for_value
 #print axioms TFV.SrcTie.C11_src_argsort_k
+#print axioms TFV.SrcTie.C11_src_binary_search_first_ge
